@@ -70,7 +70,15 @@ func (c *Config) MarshalBinary() ([]byte, error) {
 	})
 }
 
-func (c *Config) UnmarshalBinary(data []byte) error {
+func (c *Config) UnmarshalBinary(data []byte) (err error) {
+	// The decoders of the embedded number and group element types panic on some
+	// malformed inputs (a zero modulus, a CBOR null in place of a point):
+	// stored material must be refused with an error instead.
+	defer func() {
+		if r := recover(); r != nil {
+			err = fmt.Errorf("config: malformed encoding: %v", r)
+		}
+	}()
 	if c.Group == nil {
 		return errors.New("config must be initialized using EmptyConfig")
 	}
